@@ -350,6 +350,8 @@ def run(chk: Check) -> None:
     run_cached_lines_self_contained(chk, ix)
     run_protocol_member_indirection(chk, ix)
     run_implicit_callee_indirection(chk, ix)
+    run_plugins_snapshot(chk, ix)
+    run_meta_tests_use_meta(chk, ix)
     # R02.7: the validity record itself survives the JSON round trip (instances of C11's conversion rule)
     from .c11 import run_json_conversions
     run_json_conversions(chk, ix, rid="R02.7", only=("CacheMeta", "CacheMetaEx"), floor=4)
@@ -592,3 +594,73 @@ def run_implicit_callee_indirection(chk: Check, ix) -> None:
         r.ok(key, f.loc(rec[0]), norm(rec[0])[:80])
     else:
         r.violation(key, f.loc(), "`method_type` only flows into transform_callee_type and check_call: nothing makes it visible to patch_indirect_dependencies")
+
+
+def run_plugins_snapshot(chk: Check, ix) -> None:
+    """R02.15 / R02.16: the record of which plugins produced the cache."""
+    from ..cfg import CFG, call_name
+    r15 = chk.rule("R02.15", "build.dispatch replaces the plugins snapshot on disk (write_plugins_snapshot) only after process_graph has run: the snapshot is the only record of which plugins produced the cache files (find_cache_meta rejects metas when it differs from the current plugins), so it may say `current plugins` only once every module rejected for that reason has been re-checked and re-written. On every CFG path (exception edges excluded: a blocking error leaves through them) the write is preceded by process_graph", floor=1)
+    d = ix.func("mypy.build.dispatch")
+    g = CFG(d.node)
+
+    def calls(n, name):
+        return n.kind in ("stmt", "test") and n.stmt is not None and any(isinstance(c, ast.Call) and call_name(c) == name for c in ast.walk(n.stmt if n.kind == "stmt" else getattr(n.stmt, "test", n.stmt)))
+    writes = [n for n in g.nodes if n.kind == "stmt" and isinstance(n.stmt, ast.Expr) and isinstance(n.stmt.value, ast.Call) and call_name(n.stmt.value) == "write_plugins_snapshot"]
+    procs = [n for n in g.nodes if n.kind == "stmt" and any(isinstance(c, ast.Call) and call_name(c) == "process_graph" for c in ast.walk(n.stmt))]
+    if not writes or not procs:
+        raise AnalysisError(f"dispatch: write_plugins_snapshot sites {len(writes)}, process_graph sites {len(procs)}")
+    for w in writes:
+        key = "dispatch: write_plugins_snapshot only after process_graph"
+        if g.must_pass(g.entry, [w], procs, labels_excluded=("exc",)):
+            r15.ok(key, d.loc(w.stmt))
+        else:
+            r15.violation(key, d.loc(w.stmt), "a path reaches write_plugins_snapshot without having run process_graph: when the plugins changed and process_graph then stops at a blocking error, the new snapshot lies next to metas written with the old plugins for every module not yet reached; the next run finds `snapshot == current plugins`, accepts them and replays results computed with the old plugin")
+    r16 = chk.rule("R02.16", "State.patch_indirect_dependencies skips modules the state already depends on; a module counts as `already depended on` only if a change of its interface is noticed for this state, i.e. it is in `dependencies` (hashed in dep_hashes) or `suppressed`. Ancestor packages are processed before the module but their interface hash is not recorded for it, so they do not count: otherwise a type reached through another module that is defined in `pkg/__init__.py` leaves `pkg.mod` with no dependency on `pkg` at all", floor=1)
+    p = ix.func("mypy.build.State.patch_indirect_dependencies")
+    ex = [a for a in ast.walk(p.node) if isinstance(a, ast.Assign) and norm(a.targets[0]) == "existing_deps"]
+    if not ex:
+        raise AnalysisError("patch_indirect_dependencies: existing_deps not found")
+    attrs = sorted({x.attr for x in ast.walk(ex[0].value) if isinstance(x, ast.Attribute) and norm(x.value) == "self"})
+    key = "patch_indirect_dependencies: only hashed dependencies count as existing"
+    extra = [a for a in attrs if a not in ("dependencies", "suppressed", "id")]
+    if not extra:
+        r16.ok(key, p.loc(ex[0]), f"existing_deps built from {attrs}")
+    else:
+        r16.violation(key, p.loc(ex[0]), f"existing_deps also contains self.{extra[0]}: such modules are never added as indirect dependencies although no interface hash of theirs is recorded for this module (`pkg/__init__.py` defines X, `other.get() -> X`, `pkg/mod.py` uses `other.get().attr`: after X.attr changes type the warm run still shows the old type)")
+
+
+def run_meta_tests_use_meta(chk: Check, ix) -> None:
+    """R02.17: whether a cache file is usable is decided from what that cache file records."""
+    r17 = chk.rule("R02.17", "every test in find_cache_meta that abandons a meta (`Metadata abandoned for ...`) compares something recorded in that meta (`m.<field>`, or a local derived from it such as cached_options) with the current value. A test that compares two facts about the cache *directory* (manager.plugins_snapshot != manager.old_plugins_snapshot) cannot tell which of the files were written under which value once a run has rewritten only some of them (a run stopped by a blocking error)", floor=6)
+    f = ix.func("mypy.build.find_cache_meta")
+    derived = {"m", "meta"}
+    changed = True
+    while changed:
+        changed = False
+        for a in ast.walk(f.node):
+            if isinstance(a, (ast.Assign, ast.AnnAssign)) and a.value is not None:
+                tg = a.targets[0] if isinstance(a, ast.Assign) else a.target
+                if isinstance(tg, ast.Name) and tg.id not in derived and any(isinstance(x, ast.Name) and x.id in derived for x in ast.walk(a.value)):
+                    derived.add(tg.id)
+                    changed = True
+    n = 0
+    par = f.module.parents()
+    from ..cfg import branch_conditions
+    for i in ast.walk(f.node):
+        if not isinstance(i, ast.If):
+            continue
+        logs = [c for c in ast.walk(ast.Module(body=i.body, type_ignores=[])) if isinstance(c, ast.Call) and isinstance(c.func, ast.Attribute) and c.func.attr == "log" and c.args and "abandoned" in norm(c.args[0])]
+        direct = [c for s in i.body for c in ([s.value] if isinstance(s, ast.Expr) and isinstance(s.value, ast.Call) else []) if c in logs]
+        if not direct:
+            continue
+        n += 1
+        what = norm(direct[0].args[0])[:70]
+        pos, neg = branch_conditions(par, f.node, i.body[0])
+        names = {x.id for t in pos for x in ast.walk(t) if isinstance(x, ast.Name)}
+        key = f"find_cache_meta: the test for {what} looks at the meta"
+        if names & derived:
+            r17.ok(key, f.loc(i))
+        else:
+            r17.violation(key, f.loc(i), f"`{norm(i.test)[:100]}` mentions nothing recorded in the cache file itself: after plugin v1 -> v2 and a run that stops at a blocking error, some metas are from v2 while the snapshot still says v1; reverting the plugin makes the snapshot match again and the v2 results are replayed")
+    if n < 6:
+        raise AnalysisError(f"find_cache_meta: only {n} `Metadata abandoned` tests found")
